@@ -15,6 +15,9 @@ CONSTANTS
   ROSets = {{}}
   TickSizes = {1}
   MaxTicks = 0
+  Filter = "none"
+  NoLockSet = {FALSE}
+  TickInList = TRUE
   POR = FALSE
   MaxHist = 0
 VIEW view
